@@ -291,6 +291,9 @@ func migratable(n *relaynet.Node, oldIdx, newIdx uint32) int {
 	}
 	k := 0
 	for _, r := range o.RelayFor {
+		if r.Type == 1 && !st.AmRelay {
+			continue // Forwarding relays are not migrated once am_relay is off
+		}
 		var ex *nebula.VerifRelayRec
 		for j := range p.RelayFor {
 			if p.RelayFor[j].PeerAddr == r.PeerAddr {
@@ -392,6 +395,57 @@ func gen(r *hlib.Rand, n int, tier, profile string, emit func(string, ...any)) {
 		for k := 0; k < steps; k++ {
 			a := r.Intn(nn)
 			b := peerOf(a)
+			// initiator side, relay migration and hostinfo churn
+			if y := r.Intn(100); y < 14 {
+				switch {
+				case y < 6:
+					// a starts relays towards t through b (and sometimes a second relay / itself / the target)
+					t := r.Intn(nn)
+					rl := fmt.Sprintf("%d", b)
+					if r.Chance(1, 4) {
+						rl += fmt.Sprintf(",%d", r.Intn(nn))
+					}
+					em("start %d %d %s", a, t, rl)
+					alloc++
+					if r.Chance(2, 3) {
+						for d := r.Intn(4); d > 0; d-- {
+							em("deliver 0")
+							alloc++
+						}
+						em("start %d %d %s", a, t, rl)
+					}
+				case y < 10:
+					// use the relays, re-handshake, then migrate the used ones to the new primary hostinfo
+					g := idxGuess()
+					for d := r.Range(3, 8); d > 0; d-- {
+						em("fwd %d %d %d", a, b, g)
+						g++
+					}
+					hs(a, b)
+					if r.Chance(1, 3) {
+						em("reload %d %d", b, r.Intn(2))
+					}
+					em("migrate %d %d", b, a)
+					em("migrate %d %d", a, b)
+				case y < 12:
+					// more than MaxHostInfosPerVpnIp hostinfos for one peer: the oldest is retired
+					for d := r.Range(4, 7); d > 0; d-- {
+						if r.Bool() {
+							hs(a, b)
+						} else {
+							hs(b, a)
+						}
+					}
+				default:
+					g := idxGuess()
+					for d := r.Range(2, 6); d > 0; d-- {
+						em("fwd %d %d %d", a, b, g)
+						g++
+					}
+					em("migrate %d %d", b, a)
+				}
+				continue
+			}
 			switch x := r.Intn(100); {
 			case x < 5:
 				hs(a, r.Intn(nn))
